@@ -541,6 +541,16 @@ func extractStructure(e *env, f *facts) {
 	// the read loop never waits for the write lock (a writer may be stalled in the transport while holding it)
 	rlBody := strings.Join(strings.Fields(src(p, p.fn("Conn.ReadLoop").Body)), "")
 	f.Bool["readLoopNeverWaitsForWriteLock"] = !strings.Contains(rlBody, "c.mu.Lock()")
+	// the deadline setters reach the transport without waiting for the write lock: a writer that is stalled in the
+	// transport (holding the lock) can always be bounded by a deadline set from another goroutine
+	lockFree := true
+	for _, name := range []string{"Conn.SetDeadline", "Conn.SetReadDeadline", "Conn.SetWriteDeadline"} {
+		body := strings.Join(strings.Fields(src(p, p.fn(name).Body)), "")
+		if strings.Contains(body, ".Lock()") || !strings.Contains(body, "c.conn.Set") {
+			lockFree = false
+		}
+	}
+	f.Bool["deadlineSettersLockFree"] = lockFree
 }
 
 func contains(l []string, s string) bool {
